@@ -488,7 +488,11 @@ func (a *Act) assertInvs(h *ssa.BasicBlock, st *State, kind string) {
 			a.vc.oblige(name, kind, a.props, c.Line, st.guard, "false", "contract error: "+err.Error()+" in: "+c.Text)
 			continue
 		}
+		n0 := len(a.vc.obls)
 		a.vc.oblige(name, kind, a.props, c.Line, st.guard, v, c.Text)
+		if len(a.vc.obls) > n0 && len(c.Props) > 0 {
+			a.vc.obls[len(a.vc.obls)-1].OnlyProps = c.Props
+		}
 	}
 }
 
